@@ -156,9 +156,8 @@ def expect(line):
 # ----------------------------------------------------------------------------- generator
 
 SMALL_PRIMES = [7, 11, 19, 23, 31, 43, 47, 59]        # one-word primes = 3 (mod 4), p <= 61
-TWO_WORD_PRIMES = [2 ** 127 - 1 - 0, 2 ** 89 - 1]       # placeholders, replaced below by primes = 3 (mod 4)
-TWO_WORD_PRIMES = [0xffffffffffffffffffffffffffffff53 if False else 2 ** 127 - 1, (1 << 100) + 277 if False else 2 ** 107 - 1]
-# 2^127 - 1 = 3 (mod 4) (Mersenne), 2^107 - 1 = 3 (mod 4) (Mersenne): both need two 64-bit words
+# two-word primes = 3 (mod 4): the Mersenne prime 2^127 - 1 and a 108-bit prime without special form
+TWO_WORD_PRIMES = [2 ** 127 - 1, 0xc06c06c06c06c06c06c06c06c67]
 
 STD = {"bign256": "1.2.112.0.2.0.34.101.45.3.1", "bign384": "1.2.112.0.2.0.34.101.45.3.2",
        "bign512": "1.2.112.0.2.0.34.101.45.3.3", "bign96": "1.2.112.0.2.0.34.101.45.3.0",
